@@ -231,6 +231,27 @@ pub fn run(ctx: &mut Ctx) {
         let mut rng = ctx.rng(case);
         digest_document(ctx, case, &mut rng, &mut digests);
     }
+    // WAC programs (C04's generator): spreads filling several arguments, fills, nested `new`s
+    let n_prog = ctx.n(200, 6000);
+    if let Ok(pd) = crate::props::c04::ProgramDigester::new() {
+        for k in ctx.cases(n_prog) {
+            let case = 3_000_000 + k;
+            if ctx.out_of_budget() {
+                ctx.count("budget-stop");
+                break;
+            }
+            ctx.begin(case);
+            let seed = crate::util::mix(crate::util::mix(ctx.seed, 0xC04), k);
+            ctx.eval();
+            let runs: Vec<Option<(String, String)>> = (0..3).map(|_| pd.digest(seed)).collect();
+            let Some((text, first)) = runs[0].clone() else { continue };
+            if runs.iter().any(|r| r.as_ref().map(|x| &x.1) != Some(&first)) {
+                ctx.violation(case, "C16:program-encoding-differs-in-process", format!("the same WAC program resolved and encoded three times in one process: {:?}", runs.iter().map(|r| r.as_ref().map(|x| x.1.clone())).collect::<Vec<_>>()), json!({"text": text}));
+            }
+            ctx.count(&format!("program:{}", first.split(':').next().unwrap_or("?")));
+            digests.push(json!([format!("program:{k}"), first]));
+        }
+    }
     let n_hist = ctx.n(100, 3000);
     for case in ctx.cases(n_comp + n_doc + n_hist) {
         if case < n_comp + n_doc {
